@@ -84,3 +84,87 @@ Theorem C10_canonical_selected :
       (PipelineSpec.dedup_from E nil cs).
 Proof. exact UniqueSelected.dedup_canonical_selected. Qed.
 Print Assumptions C10_canonical_selected.
+
+(* after the repairs aaa3975 (-0) and 5580b4e (order-free object hash): equality is an equivalence and the hash agrees with it on canonical values in ANY member order; closure for parsed inputs; what remains false is exactly the two edge doubles 2^64 and -2^63 (outside the interoperable range of the property) *)
+From Jawk Require Import Base Json Reader JsonParser Stream Ctx PipelineSpec GroupUniqProofs ParsedPrintable HashProofs EqProofs.
+
+(* for every member hasher: equal canonical values have the same hash feed, whatever the order of object members at any depth *)
+Theorem C10_hash_any_order :
+  forall (mh : list hw -> N) (a b : json),
+    canonical a -> canonical b -> jeqb a b = true -> hash_feed mh a = hash_feed mh b.
+Proof. exact hash_coherent_any_order. Qed.
+Print Assumptions C10_hash_any_order.
+
+Theorem C10_key_hash :
+  forall (mh : list hw -> N) (a b : ckey),
+    ckey_canonical a -> ckey_canonical b -> ckey_eqb a b = true -> ckey_feed mh a = ckey_feed mh b.
+Proof. exact ckey_hash_coherent. Qed.
+Print Assumptions C10_key_hash.
+
+Theorem C10_eq_sym :
+  forall a b : json, canonical a -> canonical b -> jeqb a b = true -> jeqb b a = true.
+Proof. exact jeqb_sym_canonical. Qed.
+Print Assumptions C10_eq_sym.
+
+Theorem C10_eq_trans :
+  forall a b c : json,
+    canonical a -> canonical b -> canonical c -> jeqb a b = true -> jeqb b c = true -> jeqb a c = true.
+Proof. exact jeqb_trans_canonical. Qed.
+Print Assumptions C10_eq_trans.
+
+(* no hypothesis on equality left: a row is dropped exactly when some earlier row has an equal key *)
+Theorem C10_unique_canonical :
+  forall (E : Type) (cs : list (ctx E)),
+    (forall c : ctx E, In c cs -> ckey_canonical (key c)) -> dedup_from E [] cs = dedup_all E [] cs.
+Proof. exact unique_canonical_rows. Qed.
+Print Assumptions C10_unique_canonical.
+
+Theorem C10_unique_canonical_complete :
+  forall (E : Type) (cs : list (ctx E)),
+    (forall c : ctx E, In c cs -> ckey_canonical (key c)) ->
+    forall c : ctx E,
+    In c cs -> exists c' : ctx E, In c' (dedup_from E [] cs) /\ ckey_eqb (key c) (key c') = true.
+Proof. exact unique_canonical_rows_complete. Qed.
+Print Assumptions C10_unique_canonical_complete.
+
+Theorem C10_unique_canonical_distinct :
+  forall (E : Type) (cs : list (ctx E)),
+    (forall c : ctx E, In c cs -> ckey_canonical (key c)) ->
+    ForallOrdPairs
+      (fun a b : ctx E => ckey_eqb (key a) (key b) = false /\ ckey_eqb (key b) (key a) = false)
+      (dedup_from E [] cs).
+Proof. exact unique_canonical_rows_distinct. Qed.
+Print Assumptions C10_unique_canonical_distinct.
+
+(* for every input byte stream, rows without selections: first occurrences, completeness, pairwise distinct output, hash agreement — unless a value contains the double 2^64 or -2^63 *)
+Theorem C10_unique_parsed :
+  forall (E : Type) (bs : list byte) (vs : list json) (n : N) (cs : list (ctx E)),
+    values_of_bytes bs = (vs, n) ->
+    (forall c : ctx E, In c cs -> results c = [] /\ In (input c) vs /\ no_edge_doubles (input c)) ->
+    dedup_from E [] cs = dedup_all E [] cs /\
+    (forall c : ctx E,
+     In c cs -> exists c' : ctx E, In c' (dedup_from E [] cs) /\ ckey_eqb (key c) (key c') = true) /\
+    ForallOrdPairs
+      (fun a b : ctx E => ckey_eqb (key a) (key b) = false /\ ckey_eqb (key b) (key a) = false)
+      (dedup_from E [] cs) /\
+    (forall (mh : list hw -> N) (c d : ctx E),
+     In c cs -> In d cs -> ckey_eqb (key c) (key d) = true -> ckey_feed mh (key c) = ckey_feed mh (key d)).
+Proof. exact unique_parsed_inputs. Qed.
+Print Assumptions C10_unique_parsed.
+
+(* the side condition is needed: 18446744073709551614 = 2^64 (as a double) = 18446744073709551615 under the = function, but the two integers differ *)
+Theorem C10_edge_not_transitive :
+  ~
+    (forall a b c : json,
+     parsed_ok a -> parsed_ok b -> parsed_ok c -> jeqb a b = true -> jeqb b c = true -> jeqb a c = true).
+Proof. exact jeqb_trans_parsed_false. Qed.
+Print Assumptions C10_edge_not_transitive.
+
+Theorem C10_edge_unique_order_dependent :
+  ~
+    (forall (E : Type) (bs : list byte) (vs : list json) (n : N) (cs : list (ctx E)),
+     values_of_bytes bs = (vs, n) ->
+     (forall c : ctx E, In c cs -> results c = [] /\ In (input c) vs) ->
+     dedup_from E [] cs = dedup_all E [] cs).
+Proof. exact unique_parsed_inputs_unrestricted_false. Qed.
+Print Assumptions C10_edge_unique_order_dependent.
